@@ -78,12 +78,29 @@ NEEDS.update({
  "R4_C11_2":"a truncated hex record through a human-readable deserializer (debug build: assertion; release: wrong value)",
  "R4_C11_3":"BoxedMontyForm::invert at exactly 1920-bit precision in the debug-assertion profile",
 })
+NEEDS.update({
+ "R5_C19_1":"a full-width compile-time modulus not close to 2^BITS and a distribution check (ConstMontyForm::try_random reduces a full-width word instead of rejecting)",
+ "R5_C19_2":"an RNG that fails at some call inside Odd::<BoxedUint>::random (returns Odd(1) instead of panicking)",
+ "R5_C19_3":"BoxedUint::try_random_mod (fallible path only) with a modulus stored with spare zero high limbs",
+ "R5_C16_1":"a human-readable serializer and ConstMontyForm (serialize writes the retrieved value, deserialize expects the Montgomery form)",
+ "R5_C16_2":"a zero-limb BoxedUint formatted with Binary (forwards to LowerHex of a zero limb)",
+ "R5_C16_3":"a truncated / corrupted Checked record, or a deserializer error at one call (error swallowed into the None state)",
+ "R5_C18_1":"RLP encoding of a value with more all-zero limbs at the bottom than at the top (e.g. 2^127 in U128)",
+ "R5_C18_2":"a DER magnitude longer than one limb and not a multiple of 8 octets (chunks().rev() instead of rchunks())",
+ "R5_C18_3":"an RLP input whose first octet is a list header (decode through Rlp::data())",
+ "R5_C12_1":"conditional_swap (not select/assign) with choice = 1 on NonZero/Odd over Uint/Int, operands differing above the low byte (two cooperating edits)",
+ "R5_C12_2":"Deserialize::deserialize_in_place into an existing wrapper with a zero / even record, looking at the target after the error",
+ "R5_C12_3":"the hybrid-array feature, the U64 width only, from_le_byte_array (little-endian decoded as big-endian)",
+ "R5_C08_1":"a Montgomery product that is a non-zero multiple of the modulus (zero divisors of a composite modulus, or new(k*m))",
+ "R5_C08_2":"BoxedMontyForm::double with the top bit of the modulus set and a representation >= 2^(BITS-1)",
+ "R5_C08_3":"pow_bounded_exp with exponent_bits not a multiple of 4 and exponent bits set above the bound inside the top window",
+})
 os.makedirs("/verif/seeded", exist_ok=True)
 rows=[]
 for name, needs in NEEDS.items():
     parts = name.split("_")
     prop, i = parts[-2], parts[-1]
-    src=f"/tmp/wt2_{prop}/seeded_out/{i}" if name.startswith("R2_") else (f"/tmp/wt3_{prop}/seeded_out/{i}" if name.startswith("R3_") else (f"/tmp/wt4_{prop}/seeded_out/{i}" if name.startswith("R4_") else f"/tmp/wt_{prop}/seeded_out/{i}"))
+    src=f"/tmp/wt2_{prop}/seeded_out/{i}" if name.startswith("R2_") else (f"/tmp/wt3_{prop}/seeded_out/{i}" if name.startswith("R3_") else (f"/tmp/wt4_{prop}/seeded_out/{i}" if name.startswith("R4_") else (f"/tmp/wt5_{prop}/seeded_out/{i}" if name.startswith("R5_") else f"/tmp/wt_{prop}/seeded_out/{i}")))
     res_p=f"/tmp/seed_logs/{name}.json"
     if not (os.path.isdir(src) and os.path.exists(res_p)):
         if not os.path.exists(f"/verif/seeded/{name}/meta.json"): print("missing", name)
